@@ -17,6 +17,11 @@ def run(eng, R):
     R.rule("H-prof", "profile targets: asymmetric errors where the profile has risen by 1, arrows by sigma^2, contours by sigma^2; the profile function is cost - target", 6)
     R.rule("H-band", "error band = sqrt(p^T C p) with the fixed parameters cut out of derivative and covariance by the same mask", 4)
     R.rule("F1", "arguments reach the parameter of the same name at every resolved call site of the minimizer / fitter / profiler / xy fit classes", 100)
+    R.rule("S-snap", "cached uncertainties (asymmetric errors, Hessian, covariance, correlation) restored from a snapshot belong to the state that was saved: every save overwrites "
+                     "every entry", 10)
+    from .c08 import check_snapshot_complete
+
+    check_snapshot_complete(eng, R, "S-snap")
 
     check(eng, R, "H-cov", "MinimizerBase", "cov_mat", "assign", "self.hessian_inv * 2.0 * self.errordef", target="self._par_cov_mat",
           what="the parameter covariance must be 2 x errordef x inverse Hessian")
